@@ -84,6 +84,19 @@ class Fundamentals:
         self.start_at.pop(market_id)
         self.prices.pop(market_id)
 
+    def _generate_until(self, time: int) -> None:
+        """generate the prices up to the given time step with the current settings. (Internal method)
+        This method is called before a setting is changed at the time step, so that the prices up to it follow the settings before the change.
+
+        Args:
+            time (int): time step.
+
+        Returns:
+            None
+        """
+        while self._generated_until < time:
+            self._generate_next()
+
     def change_volatility(
         self, market_id: int, volatility: float, time: int = 0
     ) -> None:
@@ -99,6 +112,7 @@ class Fundamentals:
         """
         if volatility < 0.0:
             raise ValueError("volatility must be non-negative")
+        self._generate_until(time=time)
         self.volatilities[market_id] = volatility
         self._generated_until = time
 
@@ -113,6 +127,7 @@ class Fundamentals:
         Returns:
             None
         """
+        self._generate_until(time=time)
         self.drifts[market_id] = drift
         self._generated_until = time
 
@@ -134,6 +149,7 @@ class Fundamentals:
             raise ValueError("corr must be between 0.0 and 1.0")
         if market_id1 == market_id2:
             raise ValueError("market_id1 and market_id2 must be different")
+        self._generate_until(time=time)
         if (market_id2, market_id1) in self.correlation:
             self.correlation[(market_id2, market_id1)] = corr
         else:
@@ -155,6 +171,7 @@ class Fundamentals:
         """
         if market_id1 == market_id2:
             raise ValueError("market_id1 and market_id2 must be different")
+        self._generate_until(time=time)
         if (market_id2, market_id1) in self.correlation:
             self.correlation.pop((market_id2, market_id1))
         else:
